@@ -93,6 +93,8 @@ def run(ck: Check, prog: Program) -> None:
     _c06._empty_batch_request(ck, _c06.model_program(prog))
     from .c04 import _bind_strict, bind_methods, validate_always
     _bind_strict(ck, prog)
+    from . import borrow
+    borrow(ck, prog, 'C05', {'BATCH-FORM'}, 'a batch with an element that is not a valid request is rejected as a whole: every element of the array is deserialised')
     # "a document that is not a valid request is answered -32600": the deserialisers raise DeserializationError and nothing else — a
     # member that may be an array / object is never hashed (set / dict membership) before its type is known
     _mp = _c06.model_program(prog)
